@@ -19,6 +19,8 @@ SKIP = set('manifold_cylinder manifold_sphere manifold_cube manifold_translate m
            'manifold_cross_section_translate'.split())   # hand-written in c20_wrappers
 # wrappers whose receiver is by design NOT the handle argument (they work on a copy constructed in `mem`): hand-written in c20_lifecycle
 SKIP |= set('manifold_meshgl_merge manifold_meshgl64_merge'.split())
+# wrappers that look INTO a handle (vector element access): need a real object behind the handle, hand-written in c20_lifecycle
+SKIP |= set('manifold_manifold_vec_set manifold_cross_section_vec_set'.split())
 
 
 def norm(s):
@@ -49,7 +51,7 @@ def survey(names):
             c, m = U.lower_unit(u, '/tmp/gen_c20_out')
         except Exception as e:
             continue
-        out[q] = {'proto': m['protos'][q], 'recorders': m['recorders'],
+        out[q] = {'proto': m['protos'][q], 'recorders': m['recorders'], 'loops': m['loops'].get(q, 0),
                   'dropped': [l for l in m['lowering_log'] if 'DROPPED' in l],
                   'placement': any('placement new' in l for l in m['lowering_log'])}
     return out
@@ -201,6 +203,9 @@ def main():
     for q in sorted(sv):
         info = sv[q]
         if q in SKIP or len(info['recorders']) != 1 or info['dropped']:
+            continue
+        if info['loops']:
+            report.append('%s: skipped (marshalling loop over a caller-supplied array; not a pure pass-through wrapper)' % q)
             continue
         txt, err = gen_case(q, info, report)
         if err:
